@@ -538,8 +538,18 @@ func augEveryIterationPops(c *Ctx, f *ssa.Function, l *loopInfo) (bool, string) 
 			}
 		}
 	}
+	// ... or a cursor into the list: cursor < len(list)
 	if listAlloc == nil {
-		return false, "the loop condition is not len(list) != 0 on a local list"
+		if ifi, ok := l.Header.Instrs[len(l.Header.Instrs)-1].(*ssa.If); ok {
+			if bo, ok := ifi.Cond.(*ssa.BinOp); ok && bo.Op == token.LSS && bnLenOf(bo.Y) != nil {
+				if ld, ok := bo.X.(*ssa.UnOp); ok && ld.Op == token.MUL {
+					listAlloc, _ = ld.X.(*ssa.Alloc) // the consumable is the cursor
+				}
+			}
+		}
+	}
+	if listAlloc == nil {
+		return false, "the loop condition is neither len(list) != 0 on a local list nor cursor < len(list)"
 	}
 	// closures that pop: store list = list[1:] through the captured variable
 	popping := map[*ssa.Function]bool{}
@@ -569,6 +579,14 @@ func augEveryIterationPops(c *Ctx, f *ssa.Function, l *loopInfo) (bool, string) 
 							if sl, ok := st.Val.(*ssa.Slice); ok {
 								if lo, ok := bnConst(sl.Low); ok && lo >= 1 {
 									popping[fn] = true
+								}
+							}
+							// cursor = cursor + k, k >= 1
+							if bo, ok := st.Val.(*ssa.BinOp); ok && bo.Op == token.ADD {
+								if k, isC := bnConst(bo.Y); isC && k >= 1 {
+									if ld, ok := bo.X.(*ssa.UnOp); ok && ld.Op == token.MUL && ld.X == ssa.Value(fv) {
+										popping[fn] = true
+									}
 								}
 							}
 						}
